@@ -257,7 +257,10 @@ class NBGen:
                 d[k] = "<svg width=\"%d\">\n<circle r=\"%d\"/>\n</svg>" % (r.randrange(100), r.randrange(10))
             elif k in ("application/json", "application/vnd.custom+json"):
                 c = r.random()
-                if c < 0.35:
+                if c < 0.12 and self.json_scalars:
+                    # a JSON mime type whose value is a (multi-line) STRING: loader scripts of plotting libraries
+                    d[k] = self.text(OUT_LINES, 5)
+                elif c < 0.35:
                     d[k] = {"k": self.scalar(), "l": [self.scalar() for _ in range(r.randrange(3))]}
                 elif c < 0.55:
                     d[k] = [[self.scalar() for _ in range(r.randrange(3))] for _ in range(r.randrange(3))]
